@@ -7,18 +7,27 @@ echo "" >> $out
 echo "| seed | applies | check | exit | unlisted failures |" >> $out
 echo "|---|---|---|---|---|" >> $out
 rm -rf /var/tmp/evidence.keep; cp -r /verif/evidence /var/tmp/evidence.keep
-for d in /verif/seeded/C??; do
-  id=$(basename $d)
+for d in /verif/seeded/C?? /verif/seeded/C??-2; do
+  [ -d $d ] || continue
+  seed=$(basename $d)
+  id=$(echo $seed | cut -c1-3)
   cd /repo
-  if ! git apply --check $d/patch.diff 2>/dev/null; then
-    echo "| $id | no (see meta.json: applies_to) | - | - | - |" >> $out; continue
+  pf=$d/patch.diff; how=yes
+  if ! git apply --check $pf 2>/dev/null; then
+    if [ -f $d/patch-rebased.diff ] && git apply --check $d/patch-rebased.diff 2>/dev/null; then
+      pf=$d/patch-rebased.diff; how="patch-rebased.diff (the original no longer applies after later fix: commits)"
+    else
+      echo "| $seed | no (see meta.json: applies_to) | - | - | - |" >> $out; continue
+    fi
   fi
-  git apply $d/patch.diff
+  git apply $pf
   res=$(/verif/vcheck $id quick 2>&1); rc=$?
   n=$(echo "$res" | grep -E "^SUMMARY" | sed -E 's/.*violations=([0-9]+).*/\1/')
   git -C /repo checkout -- .
-  echo "| $id | yes | ./vcheck $id quick | $rc | $n |" >> $out
-  echo "$id rc=$rc violations=$n"
+  echo "| $seed | $how | ./vcheck $id quick | $rc | $n |" >> $out
+  echo "$seed rc=$rc violations=$n"
 done
+echo "" >> $out
+echo "Produced by \`tools/seed-all.sh\`: each patch is applied to /repo itself (\`git apply\`), the quick check of its property is run, and the change is undone (\`git checkout -- .\`); evidence files are saved and restored around the loop. Seeds named CNN-2 are the second round (a different mechanism for the ten properties whose first seed was missed at first)." >> $out
 rm -rf /verif/evidence; mv /var/tmp/evidence.keep /verif/evidence; rm -f /verif/replays/*
 git -C /repo status --short | head -3
